@@ -105,12 +105,7 @@ def monBool (b : Bytes) (obs : List String) : List String :=
   | ["panic"] => ["panic{op=bool.read}"]
   | _ => ["unparsed_observation"]
 
-def monFloat (b : Bytes) (obs : List String) : List String :=
-  match obs with
-  | ["ok"] => if FloatGrammar b then [] else ["float_accepts_nongrammar"]
-  | ["err"] => if FloatGrammar b && b.length < 300 then ["float_rejects_grammar"] else []
-  | ["panic"] => ["panic{op=float.read}"]
-  | _ => ["unparsed_observation"]
+-- float: the monitors `monFloatRead` / `monFloatWrite` (grammar AND value) are in Qfx.Spec.Float
 
 def precDigits? : String → Option Nat
   | "s" => some 0 | "ms" => some 3 | "us" => some 6 | "ns" => some 9 | _ => none
